@@ -38,6 +38,7 @@ CONSTANTS
   FixLeave = TRUE
   FixWrap = TRUE
   FixDead = TRUE
+  FixAdopt = TRUE
   MaxTry = 3
   TrackCov = FALSE
   Goal = "none"
